@@ -344,7 +344,7 @@ def spanterm_compare(run, txt):
     names = dict(REC_NAMES_SPAN)
     impl_txt, dead = core.run_impl(txt, core.BUILD)
     impl = core.parse_output(impl_txt)
-    model = core.parse_output(core.run_model(txt))
+    model = core.parse_output(core.run_model_parallel(txt, nparts=16))
     for cid, why in dead:
         run.add_violation("implementation died", "%s: %s" % (cid, why), txt, cid, None)
     for cid, m in model.items():
@@ -401,31 +401,50 @@ def check_case_lines(txt, cid):
     return ""
 
 
-def spanterm_engine(run, tier, seed):
-    """C20/C02: the whole-screen span model (Model/SpanScreen.v, the model span_simulates_cells is about) against
+def spanterm_engine(run, tier, seed, scale=1.0):
+    """C20/C02: the whole-screen span model (rune mode: Model/SpanScreen.v, the model span_simulates_cells is about;
+    grapheme mode: Model/GSpan.v, the same definitions over the cluster stepper, at the uniseg model) against
     the real read loop on the span buffer, per operation, in the RAW representation: every row's list of spans
     (style, text bytes, fill rune, width) and cached width, plus headers, cells (through the abstraction function),
     replies, registers, strings, callback digest and the announced regions in order.  Nothing is excused: the span
     model is a transcription of the code and carries no known-finding mark."""
     import re
+    import json, os
     import core
+    import witness as wit
+    flag = lambda t: re.sub(r"^(100 \d+ \d+ \d+ \d+)( \d+)?$", lambda m: m.group(1) + " 0 1", t, flags=re.M)
+
+    def corpus(name):
+        cpath = os.path.join(core.VERIF, "corpus", "spanterm", name)
+        if os.path.exists(cpath):
+            return flag("".join(wit.case_text(w) for w in json.load(open(cpath))))
+        return ""
     plan = [("mixed", 200, 1500), ("stepall", 150, 1000), ("c03", 100, 600), ("c05", 80, 500), ("c06", 80, 500), ("c18", 80, 500),
             ("c08", 80, 500), ("hostile", 80, 500), ("c17", 40, 300), ("c04", 40, 300), ("c07", 40, 300), ("c09", 40, 300),
             ("c14", 30, 200), ("c19", 20, 150)]
-    import json, os
-    import witness as wit
-    cpath = os.path.join(core.VERIF, "corpus", "spanterm", "cases.json")
-    if os.path.exists(cpath):
-        ctxt = "".join(wit.case_text(w) for w in json.load(open(cpath)))
-        ctxt = re.sub(r"^(100 \d+ \d+ \d+ \d+)( \d+)?$", lambda m: m.group(1) + " 0 1", ctxt, flags=re.M)
-        spanterm_compare(run, ctxt)
-    for profile, q, th in plan:
-        n = th if tier == "thorough" else q
-        txt = core.gen_cases(profile, seed + 77, n, "0", "0")
-        txt = re.sub(r"^(100 \d+ \d+ \d+ \d+)( \d+)?$", lambda m: m.group(1) + " 0 1", txt, flags=re.M)
+    # TextReadModeGrapheme: Model/GSpan.v at the grapheme stepper (the uniseg model), reader state compared as record 10;
+    # nothing excused here either - the territory of KF-grapheme-merge (text that reached a row in pieces) is reproduced
+    gplan = [("gclusters", 200, 1500), ("mixed", 120, 900), ("c03", 80, 500), ("c05g", 100, 600), ("c08", 80, 500),
+             ("stepall", 60, 400), ("c18", 60, 400), ("c18g", 60, 400), ("hostile", 60, 400), ("c06", 40, 300)]
+    # all batches of one mode go through the implementation and the model together (the model side runs on 16 workers)
+    for mode, pl, sd, cname in (("0", plan, seed + 77, "cases.json"), ("1", gplan, seed + 177, "grapheme.json")):
+        before = {k: run.stats[k] for k in ("spanterm_cases", "spanterm_ops", "spanterm_rows")}
+        txt = corpus(cname)   # hand-written cases first
+        for profile, q, th in pl:
+            n = max(4, int((th if tier == "thorough" else q) * scale))
+            txt += flag(core.gen_cases(profile, sd, n, "0", mode))
         spanterm_compare(run, txt)
+        name = "rune" if mode == "0" else "grapheme"
+        for k, v in before.items():
+            run.stats[k + "_" + name] = run.stats[k] - v
     run.samples.append({"engine": "spanterm", "cases": run.stats["spanterm_cases"], "operations": run.stats["spanterm_ops"],
-                        "rows_compared_raw": run.stats["spanterm_rows"]})
+                        "rows_compared_raw": run.stats["spanterm_rows"],
+                        "grapheme_mode": {k: run.stats[k + "_grapheme"] for k in ("spanterm_cases", "spanterm_ops", "spanterm_rows")}})
+
+
+def spanterm_engine_light(run, tier, seed):
+    """the span terminal engine at a third of its case counts (C02 has its other batches too; C20 runs it in full)"""
+    spanterm_engine(run, tier, seed, scale=0.34)
 
 
 REC_NAMES_SPAN = {2: "screen header", 3: "row cells via the abstraction function", 4: "reply bytes", 5: "registers", 6: "view strings",
@@ -443,7 +462,7 @@ PROPS = {
         B("mixed", 500, 3000), B("hostile", 300, 1800, tags=[2]), B("stepall", 200, 1200, step=True),
         B("c18", 200, 1200),
         B("gclusters", 200, 1200, modes="1", tags=SCREEN + [10])],   # grapheme mode: clusters, marks, joiners, selectors, flags and their pieces, cut anywhere
-        "extra": [span_engine, spanterm_engine]},
+        "extra": [span_engine, spanterm_engine_light]},
     "C03": {"tags": SCREEN, "ppref": ("C03", "C02"), "batches": [
         B("c03", 150, 900, step=True, kinds_wanted=[1], modes="1", tags=SCREEN + [10]),
         B("gclusters", 150, 900, modes="1", tags=SCREEN + [10]),
